@@ -63,7 +63,7 @@ def fluent_available(op: str, par, cod) -> bool:
 def run_vt(scn, *, hot: bool, tmap: str, profile: str, k: int, salt: int = 0, form: str = "pipe",
            junk: Tuple[str, ...] = (), sink_raise: Optional[Tuple[str, int]] = None, resub: Optional[str] = None):
     """As ops1_common.run_scenario, plus: junk = notifications the source emits AFTER its terminal;
-    sink_raise = (kind, k): the subscriber's k-th callback of that kind raises; resub = None | "seq" | "overlap":
+    sink_raise = (kind, k): the subscriber's k-th callback of that kind raises; resub = None | "seq" | "overlap" | "overlap_mid":
     the same observable object is subscribed a second time."""
     from reactivex.scheduler import VirtualTimeScheduler
     from reactivex.testing import ReactiveTest, TestScheduler
@@ -126,6 +126,8 @@ def run_vt(scn, *, hot: bool, tmap: str, profile: str, k: int, salt: int = 0, fo
     second_at = None
     if resub == "overlap":
         second_at = 203
+    elif resub == "overlap_mid":      # the second subscription starts between two elements of the first (state shared by reference
+        second_at = 215               # shows only when the two runs are out of step)
     elif resub == "seq":
         second_at = 1200
     if second_at:
